@@ -97,6 +97,7 @@ type c15Key struct {
 	class int // which family of declaring object
 	kind  int
 	idx   int  // param / result index
+	file  int  // call-site location file (index)
 	line  int  // call-site location line
 	col   int  // call-site location column
 	fld   int  // which field object (1/2)
@@ -114,8 +115,8 @@ const (
 	c15FuncKinds
 )
 
-func c15Loc(line, col int) token.Position {
-	return token.Position{Filename: "c.go", Line: line, Column: col, Offset: 100*line + col}
+func c15Loc(file, line, col int) token.Position {
+	return token.Position{Filename: []string{"c.go", "d.go"}[file], Line: line, Column: col, Offset: 100*line + col}
 }
 
 func c15ReadFuncKey(e *c15Env, tag string) c15Key {
@@ -130,15 +131,17 @@ func c15ReadFuncKey(e *c15Env, tag string) c15Key {
 	switch k.kind {
 	case c15CallSiteParam:
 		k.idx = ndChoice(tag+"_idx", 2)
+		k.file = ndChoice(tag+"_file", 2)
 		k.line, k.col = ndInt(tag+"_line", 1, ndParam("LOCMAX", 12)), ndInt(tag+"_col", 1, ndParam("LOCMAX", 12))
-		k.key = &annotation.CallSiteParamAnnotationKey{FuncDecl: e.fn, ParamNum: k.idx, Location: c15Loc(k.line, k.col)}
+		k.key = &annotation.CallSiteParamAnnotationKey{FuncDecl: e.fn, ParamNum: k.idx, Location: c15Loc(k.file, k.line, k.col)}
 	case c15Param:
 		k.idx = ndChoice(tag+"_idx", 2)
 		k.key = &annotation.ParamAnnotationKey{FuncDecl: e.fn, ParamNum: k.idx}
 	case c15CallSiteRet:
 		k.idx = ndInt(tag+"_idx", 0, ndParam("LOCMAX", 12))
+		k.file = ndChoice(tag+"_file", 2)
 		k.line, k.col = ndInt(tag+"_line", 1, ndParam("LOCMAX", 12)), ndInt(tag+"_col", 1, ndParam("LOCMAX", 12))
-		k.key = &annotation.CallSiteRetAnnotationKey{FuncDecl: e.fn, RetNum: k.idx, Location: c15Loc(k.line, k.col)}
+		k.key = &annotation.CallSiteRetAnnotationKey{FuncDecl: e.fn, RetNum: k.idx, Location: c15Loc(k.file, k.line, k.col)}
 	case c15Ret:
 		k.idx = ndInt(tag+"_idx", 0, ndParam("LOCMAX", 12))
 		k.key = &annotation.RetAnnotationKey{FuncDecl: e.fn, RetNum: k.idx}
@@ -159,7 +162,7 @@ func c15SameKey(a, b c15Key) bool {
 	if a.class != b.class || a.kind != b.kind {
 		return false
 	}
-	return ndAnd(ndAnd(a.idx == b.idx, ndAnd(a.line == b.line, a.col == b.col)), a.fld == b.fld && a.side == b.side)
+	return ndAnd(ndAnd(a.idx == b.idx, ndAnd(a.line == b.line, a.col == b.col)), a.fld == b.fld && a.side == b.side && a.file == b.file)
 }
 
 func c15Primitivizer(pkg *types.Package) *primitivizer {
